@@ -442,25 +442,29 @@ PROPS["C16"] = dict(
     ],
 )
 
-PARKED_C17 = dict(
-    functions=["WeakLinkFilter::classify (with derive_max_delay_budget, target_*_delay_ms, pick_tier)", "SrtlaConnection::{get_smooth_rtt_ms, queue_building_suspected}"],
-    bounds="one classify() over 2 links from an arbitrary hysteresis memory per link (previous verdict, delay streak 0..1000, share-weak streak "
-           "0..14, probation 0..3), any connectivity; bitrates from the grid {0, 10k, 60k, 200k, 1M, 3M} bit/s and smoothed RTTs from {none, 50, "
-           "400, 3000} ms (both sides of the 100 kbit/s bypass floor, of the enter / leave share thresholds and of the delay tiers)",
-    stubs=["std::hash::RandomState::new -> fixed keys (the real std HashMaps / hashbrown are executed)"],
-    assumptions=["invariant weak_streak < 15 and probation <= 3 assumed on the memory and re-asserted on the post-state",
-                 "the queue-building signal is off (fresh RTT trackers): the delay clause is exercised through the RTT-over-tier signal"],
-    outside="fully symbolic bitrates / RTTs; more than 2 links; links joining and leaving between ticks (memory for unknown ids); the "
-            "queue-building delay signal",
+PROPS["C17"] = dict(
+    functions=["WeakLinkFilter::classify (with derive_max_delay_budget, target_*_delay_ms, pick_tier)", "SrtlaConnection::{get_smooth_rtt_ms, queue_building_suspected}",
+               "RttTracker::{queue_building_suspected, rtt_gradient_ms}"],
+    bounds="one classify() over N = 2 links (thorough: 3) from an arbitrary hysteresis memory per link (absent = link joined since the last tick; "
+           "else previous verdict, delay streak over all u32, share-weak streak 0..14, probation 0..3), optional stale memory of a link that has "
+           "left, any connectivity, queue-building signal on/off per link; bitrates from the grid {0, 10k, 60k, 200k, 1M, 3M} bit/s and smoothed "
+           "RTTs from {none, 50, 400, 3000} ms (both sides of the 100 kbit/s bypass floor, of the share thresholds and of the delay tiers); a second "
+           "instance draws bitrates that sit exactly on and one permille under the enter (125) and leave (375) thresholds",
+    stubs=["srtla-core feature `verif-model`: the classifier's four std HashMaps are a four-entry array map with the same surface (std's hashbrown "
+           "table did not get through CBMC in 50 min); native replays are built without the feature and execute the real HashMap"],
+    assumptions=["invariant weak_streak < 15 and probation <= 3 assumed on the memory and re-asserted on the post-state (one inductive step covers "
+                 "tick histories of any length)"],
+    outside="fully symbolic f64 bitrates / RTTs (a u16-symbolic bitrate instance did not finish in 30 min: symbolic float division); more than 3 "
+            "links; the leaf formulas derive_max_delay_budget / pick_tier are executed but only constrained through selected_delay_ms as reported",
     harnesses=[
-        H("c17::c17_classify_step", "core", desc="never weak when disconnected / under the floor; delay needs two ticks; probation after 15 share-weak verdicts; enter < 1/4, leave >= 3/4 of fair share; INV preserved", timeout=3000),
+        H("c17::c17_classify_step_n2", "core", desc="never weak when disconnected / under the floor (memory cleared); delay reasons need the signal now and on the previous tick; "
+          "probation armed by the 15th share-weak verdict and counted down over three not-weak ticks; enter < 1/4, leave >= 3/4 of fair share; INV preserved", bounds="N=2"),
+        H("c17::c17_classify_step_n2_thresholds", "core", desc="same, bitrates exactly on / one permille under the enter and leave thresholds", bounds="N=2, boundary bitrates"),
+        H("c17::c17_classify_step_n3", "core", bounds="N=3 (needed for: two connected links next to a disconnected one)", timeout=1500),
     ],
 )
 
 NOT_APPLICABLE = {
-    "C17": "a one-tick harness over the real WeakLinkFilter::classify exists (hk/core/src/c17.rs: 2 links, arbitrary hysteresis memory, real std "
-           "HashMaps with a fixed-key RandomState) and compiles, but CBMC's symbolic execution of the four hashbrown maps did not finish within "
-           "50 minutes, so nothing is decided",
     "C09": "the harness over the real process_uplink_packet (hk/shell/src/c09.rs, 10 instances by datagram type, async fn polled with "
            "kani::block_on, socket entry points stubbed) compiles and encodes, but every instance - even the one for 0..1-byte datagrams - "
            "drives CBMC past 12-14 GB within 10 minutes (the SrtlaIncoming result carries nested vector models through the async state "
